@@ -258,6 +258,75 @@ type TagDeepInner struct {
 	W int
 }
 
+// value-receiver MarshalText together with pointer-receiver MarshalJSON: encoding/json uses the JSON method
+// wherever the value is addressable
+type VTPMStruct struct{ A int }
+
+func (v VTPMStruct) MarshalText() ([]byte, error)  { return []byte(fmt.Sprintf("text%d", v.A)), nil }
+func (v *VTPMStruct) MarshalJSON() ([]byte, error) { return []byte(fmt.Sprintf(`{"json":%d}`, v.A)), nil }
+
+// string kind with text methods: as a map key encoding/json writes the string itself but decodes through UnmarshalText
+type VTString string
+
+func (v VTString) MarshalText() ([]byte, error) { return []byte("TXT-" + string(v)), nil }
+func (v *VTString) UnmarshalText(b []byte) error {
+	*v = VTString("untxt:" + string(b))
+	return nil
+}
+
+// integer kind with MarshalText only (no UnmarshalText): decoded as an integer key
+type KeyMTOnly int
+
+func (k KeyMTOnly) MarshalText() ([]byte, error) { return []byte("mt" + strconv.Itoa(int(k))), nil }
+
+// the same struct type reached as a map value (not addressable) and as a slice element (addressable): the
+// pointer-receiver methods of its field apply in the second position only
+type HasPM struct{ F PMStruct }
+
+type AddrMapThenSlice struct {
+	A map[string]HasPM
+	B []HasPM
+}
+
+type AddrSliceThenMap struct {
+	B []HasPM
+	A map[string]HasPM
+	C [1]HasPM
+	D *HasPM
+}
+
+// embedded unexported non-struct type with a tag: ignored by encoding/json
+type unexpInt int
+
+type EmbedUnexpNonStructTagged struct {
+	unexpInt `json:"x"`
+	Y        int
+}
+
+// self-referential named slice with a pointer-receiver MarshalJSON
+type RecPM []RecPM
+
+func (r *RecPM) MarshalJSON() ([]byte, error) { return []byte(fmt.Sprintf(`"rec%d"`, len(*r))), nil }
+
+// structs embedding each other by pointer
+type MutA struct {
+	X int
+	*MutB
+}
+
+type MutB struct {
+	Y int
+	*MutA
+}
+
+type MutRoot struct {
+	A MutA
+	B MutB
+}
+
+// named empty interface type
+type NamedAny interface{}
+
 // field names and tags beyond ASCII: keys match under Unicode simple case folding
 type NonASCIIKeys struct {
 	Café    int
